@@ -257,3 +257,129 @@ Proof.
   simpl v_settle. rewrite C4, S, settle_eqb_refl.
   simpl v_meta. rewrite C2, meta_exit, M, meta_equiv_refl. reflexivity.
 Qed.
+
+(** ** Retry anywhere in the chain: simulation that also relates the traces *)
+Inductive shape := SCall (k : nat) | SHook (n : Z).
+Definition shape_of (e : event) : shape := match e with ECall k _ => SCall k | ERetryHook n => SHook n end.
+Definition shapes (tr : list event) : list shape := map shape_of tr.
+Definition ec (w : world) : bool := existsb l_cancelled (m_ctx (w_msg w)).
+
+Definition R2 (w w' : world) : Prop :=
+  w_calls w = w_calls w' /\ m_base_done (w_msg w) = m_base_done (w_msg w')
+  /\ shapes (w_trace w) = shapes (w_trace w').
+Definition sim2 (G G' : handler) : Prop :=
+  forall w w', R2 w w' -> R2 (fst (G w)) (fst (G' w')) /\ rkind (snd (G w)) = rkind (snd (G' w')).
+
+Lemma sim2_inner : forall inner s, forallb is_simple inner = true ->
+  sim2 (stack repaired inner (scripted s)) (scripted (map_res (effo inner) s)).
+Proof.
+  intros inner s Hs w w' (Hc & Hb & Ht).
+  pose proof (stack_char inner Hs (scripted s) w) as CH. cbv zeta in CH.
+  rewrite scripted_map_res.
+  destruct (stack repaired inner (scripted s) w) as [w1 r]. simpl in CH.
+  destruct CH as (C1 & C2 & C3 & C4 & C5 & C6). simpl.
+  unfold R2. simpl. rewrite C5, C3, C6, C1, rkind_exit, rkind_effo.
+  rewrite !actions_base, entry_base. simpl. rewrite Hc, Hb.
+  unfold shapes in *. rewrite !map_app, Ht. simpl. auto.
+Qed.
+
+Lemma existsb_rev : forall {A} (f : A -> bool) l, existsb f (rev l) = existsb f l.
+Proof.
+  intros A f l. induction l as [|x l IH]; simpl; auto.
+  rewrite existsb_app, IH. simpl. rewrite orb_false_r. apply orb_comm.
+Qed.
+Lemma done_upto_full : forall m, done_upto (length (m_ctx m)) m = ctx_done m.
+Proof.
+  intros m. unfold done_upto, ctx_done. rewrite <- rev_length, firstn_all, existsb_rev. reflexivity.
+Qed.
+
+Lemma retry_loop_sim2 : forall H H', sim2 H H' -> ctx_preserving H -> ctx_preserving H' ->
+  forall n num w w' depth depth' outs outs' e,
+  R2 w w' -> ec w = ec w' ->
+  depth = length (m_ctx (w_msg w)) -> depth' = length (m_ctx (w_msg w')) ->
+  R2 (fst (retry_loop H n num depth w outs e)) (fst (retry_loop H' n num depth' w' outs' e))
+  /\ rkind (snd (retry_loop H n num depth w outs e)) = rkind (snd (retry_loop H' n num depth' w' outs' e)).
+Proof.
+  intros H H' Hsim C C'. induction n as [|n IH]; intros num w w' depth depth' outs outs' e HR He Hd Hd'; simpl; auto.
+  assert (D: done_upto depth (w_msg w) = done_upto depth' (w_msg w')).
+  { subst depth depth'. rewrite !done_upto_full. unfold ctx_done. destruct HR as (_ & Hb & _).
+    rewrite Hb. unfold ec in He. now rewrite He. }
+  rewrite D. destruct (done_upto depth' (w_msg w')); simpl; auto.
+  destruct (Hsim w w' HR) as [HR1 HK]. pose proof (C w) as P. pose proof (C' w') as P'.
+  destruct (H w) as [w1 r]. destruct (H' w') as [w1' r']. simpl in *.
+  destruct r as [o|o e1|p], r' as [o'|o' e1'|p']; simpl in HK; try discriminate; simpl; auto.
+  inversion HK; subst e1'. apply IH.
+  - destruct HR1 as (A & B & T). unfold R2, emit. simpl. repeat split; auto.
+    unfold shapes in *. rewrite !map_app, T. reflexivity.
+  - unfold ec, emit in *. simpl. now rewrite P, P'.
+  - simpl. now rewrite P.
+  - simpl. now rewrite P'.
+Qed.
+
+Lemma retry_sim2 : forall maxr H H', sim2 H H' -> ctx_preserving H -> ctx_preserving H' ->
+  forall w w', R2 w w' -> ec w = ec w' ->
+  R2 (fst (mw_sem repaired (MRetry maxr) H w)) (fst (mw_sem repaired (MRetry maxr) H' w'))
+  /\ rkind (snd (mw_sem repaired (MRetry maxr) H w)) = rkind (snd (mw_sem repaired (MRetry maxr) H' w')).
+Proof.
+  intros maxr H H' Hsim C C' w w' HR He. cbn [mw_sem].
+  destruct (Hsim w w' HR) as [HR1 HK]. pose proof (C w) as P. pose proof (C' w') as P'.
+  destruct (H w) as [w1 r]. destruct (H' w') as [w1' r']. simpl in *.
+  destruct r as [o|o e1|p], r' as [o'|o' e1'|p']; simpl in HK; try discriminate; simpl; auto.
+  inversion HK; subst e1'.
+  apply (retry_loop_sim2 H H' Hsim C C'); auto.
+  unfold ec. now rewrite P, P'.
+Qed.
+
+Lemma stack_app : forall v a b h, stack v (a ++ b) h = stack v a (stack v b h).
+Proof. induction a as [|x a IH]; intros; simpl; auto. now rewrite IH. Qed.
+
+(** [outer (Retry (inner h))] against the bare Retry around the handler carrying inner's effects:
+    same trace shape (attempts, their numbers, hook calls), same base-context state, and the result
+    kind is [eff outer] of the bare one.  The layers pushed by the Timeouts of [outer] are alive
+    while Retry runs, which is what its loop reads. *)
+Lemma middle_sim : forall outer maxr inner s w,
+  forallb is_simple outer = true -> forallb is_simple inner = true ->
+  let Y := stack repaired (outer ++ MRetry maxr :: inner) (scripted s) w in
+  let B := mw_sem repaired (MRetry maxr) (scripted (map_res (effo inner) s)) w in
+  w_calls (fst Y) = w_calls (fst B)
+  /\ m_base_done (w_msg (fst Y)) = m_base_done (w_msg (fst B))
+  /\ shapes (w_trace (fst Y)) = shapes (w_trace (fst B))
+  /\ rkind (snd Y) = eff outer (rkind (snd B))
+  /\ w_trace (fst Y) = w_trace (fst (mw_sem repaired (MRetry maxr) (stack repaired inner (scripted s))
+                                       (set_msg w (entry_msg outer (w_msg w))))).
+Proof.
+  intros outer maxr inner s w Ho Hi. cbv zeta.
+  rewrite stack_app. cbn [stack].
+  set (G := mw_sem repaired (MRetry maxr) (stack repaired inner (scripted s))).
+  pose proof (stack_char outer Ho G w) as CH. cbv zeta in CH.
+  set (we := set_msg w (entry_msg outer (w_msg w))) in *.
+  assert (HR: R2 we w).
+  { unfold R2, we. simpl. rewrite entry_base. auto. }
+  assert (He: ec we = ec w).
+  { unfold ec, we. simpl. rewrite entry_ctx. apply push_layers_alive. }
+  destruct (retry_sim2 maxr _ _ (sim2_inner inner s Hi)
+              (stack_ctx inner _ (scripted_ctx s)) (scripted_ctx _) we w HR He) as [(A & B & T) K].
+  fold G in A, B, T, K.
+  destruct (stack repaired outer G w) as [w1 r]. simpl in CH.
+  destruct CH as (C1 & C2 & C3 & C4 & C5 & C6). simpl.
+  rewrite C5, C3, C6, C1, rkind_exit. rewrite K. repeat split; auto.
+Qed.
+
+(** item: Retry in the MIDDLE of a chain makes the attempts of the bare Retry *)
+Theorem composes_with_retry_middle : forall outer maxr inner s w,
+  forallb is_simple outer = true -> forallb is_simple inner = true ->
+  let Y := stack repaired (outer ++ MRetry maxr :: inner) (scripted s) w in
+  let B := mw_sem repaired (MRetry maxr) (scripted (map_res (effo inner) s)) w in
+  w_calls (fst Y) = w_calls (fst B) /\ rkind (snd Y) = eff outer (rkind (snd B)).
+Proof.
+  intros. destruct (middle_sim outer maxr inner s w H H0) as (A & _ & _ & K & _). split; auto.
+Qed.
+Corollary composes_with_retry_middle_same : forall outer maxr inner s w,
+  forallb is_simple outer = true -> forallb is_simple inner = true ->
+  forallb (fun m => negb (changes_result m)) inner = true ->
+  w_calls (fst (stack repaired (outer ++ MRetry maxr :: inner) (scripted s) w))
+  = w_calls (fst (mw_sem repaired (MRetry maxr) (scripted s) w)).
+Proof.
+  intros. destruct (composes_with_retry_middle outer maxr inner s w H H0) as [A _]. rewrite A.
+  now rewrite (map_res_id _ s (effo_id inner H1)).
+Qed.
